@@ -99,6 +99,8 @@ pub fn cmd_exec(args: &[String]) -> i32 {
         }
     }
     let _ = Tier::Quick;
+    // how close the public-API stream came to the documented lane bounds (C11 evidence)
+    let _ = std::fs::write(format!("{}.monitors", out), serde_json::to_string(&crate::ops::monitor_report()).unwrap());
     0
 }
 
